@@ -489,6 +489,8 @@ def c13_unusable(src, quick=True, timeout=300):
                 T.lit('; "').hole("msg", 3, MSG_CHARS, mark="msg").lit('"').tail("rest", 2)
                 t, cons = T.build()
                 cons += tmpl.string_body_ok(t, T.marks["msg"], 3) + prefix_is_code(t, T) + no_directive(t)
+                # the value is a Rust expression: its brackets match (`f()`, not `f(`)
+                cons += tmpl.brackets_balanced(t, T.marks["val"], vlen)
                 fm = model.FileModel(src, t, max_kvps=4)
                 p0 = T.marks["name"]
                 name = "c13-unusable-%d" % idx
